@@ -276,11 +276,25 @@ func rulePatchJSON(c *rCase) (interface{}, string) {
 		if c.Dup {
 			dup := baseKeyRec
 			dup.ID = c.K.ID
-			list = append(list, keyRecordJSON(&dup, "k"))
+
+			if ruleVariant > 0 {
+				dup.Type, dup.Material = "Ed25519VerificationKey2018", "b58"
+			}
+
+			if ruleVariant == 2 {
+				list = append([]interface{}{keyRecordJSON(&dup, "k")}, list...)
+			} else {
+				list = append(list, keyRecordJSON(&dup, "k"))
+			}
 		}
 
 		if c.Wrap == "replace" {
-			return map[string]interface{}{"action": "replace", "document": map[string]interface{}{"publicKeys": list}}, "patch"
+			d := map[string]interface{}{"publicKeys": list}
+			if ruleVariant == 1 {
+				d["services"] = []interface{}{svcRecordJSON(&baseSvcRec, "s")}
+			}
+
+			return map[string]interface{}{"action": "replace", "document": d}, "patch"
 		}
 
 		return map[string]interface{}{"action": "add-public-keys", "publicKeys": list}, "patch"
@@ -293,7 +307,12 @@ func rulePatchJSON(c *rCase) (interface{}, string) {
 		}
 
 		if c.Wrap == "replace" {
-			return map[string]interface{}{"action": "replace", "document": map[string]interface{}{"services": list}}, "patch"
+			d := map[string]interface{}{"services": list}
+			if ruleVariant == 1 {
+				d["publicKeys"] = []interface{}{keyRecordJSON(&baseKeyRec, "k")}
+			}
+
+			return map[string]interface{}{"action": "replace", "document": d}, "patch"
 		}
 
 		return map[string]interface{}{"action": "add-services", "services": list}, "patch"
@@ -450,8 +469,32 @@ func ruleKey(l *rLine) string {
 	return strings.Join(parts, ":")
 }
 
-// evalRule runs the real validator on the concrete form of a case.
+// ruleVariant selects among the concrete forms of one case (see rulePatchJSON): a duplicate is a second JWK key, a
+// base58 key behind, or a base58 key in front; a replace document holds the judged section alone or next to a valid
+// other section.  All forms of a case have the case's verdict.
+var ruleVariant int
+
+// evalRule runs the real validator on every concrete form of a case; it answers with the first form whose verdict
+// differs from the first form's, if there is one.
 func evalRule(c *rCase) (valid bool, panicked string, raw []byte) {
+	ruleVariant = 0
+	valid, panicked, raw = evalRuleVariant(c)
+
+	if (c.Kind == "key" || c.Kind == "svc") && (c.Dup || c.Wrap == "replace") {
+		for ruleVariant = 1; ruleVariant <= 2; ruleVariant++ {
+			if v2, p2, r2 := evalRuleVariant(c); v2 != valid || p2 != panicked {
+				ruleVariant = 0
+				return v2, p2, r2
+			}
+		}
+	}
+
+	ruleVariant = 0
+
+	return valid, panicked, raw
+}
+
+func evalRuleVariant(c *rCase) (valid bool, panicked string, raw []byte) {
 	v, how := rulePatchJSON(c)
 	raw, _ = json.Marshal(v)
 
